@@ -346,7 +346,8 @@ Col(name, arr, j) ==
                                 IF dt = "f2" /\ \E c \in 1..m : ~RepF2(s[c]) THEN UNSPEC ELSE <<"flat", MeanType(dt), s>>
          [] name = "colvalues" -> IF j \in 0..m - 1 THEN <<"flat", dt, ColVals(rows, j)>> ELSE UNSPEC
          \* column totals of a 64-bit array whose values are given as 16-bit limbs: exact modulo 2^64 (NpVal!WideSum)
-         [] name = "wcolsum" -> IF dt \in {"i8", "u8"} THEN <<"flat", dt, [c \in 1..m |-> WideSum(ColVals(rows, c - 1))]>> ELSE UNSPEC
+         [] name = "wcolsum" -> IF dt \in {"i8", "u8"} /\ \A c \in 1..m : WideFits(ColVals(rows, c - 1), dt)
+                                THEN <<"flat", dt, [c \in 1..m |-> WideSum(ColVals(rows, c - 1))]>> ELSE UNSPEC
          [] OTHER -> UNSPEC
 
 (***************************************************************************)
@@ -378,7 +379,8 @@ Expect(c) ==
     [] op = "ragged_slice" -> RaggedSlice(c[2], c[3], c[4])
     [] op = "col" -> Col(c[2], c[3], c[4])
     \* 64-bit row totals / running totals of an array whose values are 16-bit limbs: exact modulo 2^64 (NpVal!WideSum)
-    [] op = "wreduce" -> IF DT(c[3]) \notin {"i8", "u8"} THEN UNSPEC
+    [] op = "wreduce" -> IF DT(c[3]) \notin {"i8", "u8"} \/ ~WideFits(FlatOf(c[3]), DT(c[3]))
+                            \/ \E r \in DOMAIN Rows(c[3]) : \E i \in DOMAIN Rows(c[3])[r] : ~WideFits(SubSeq(Rows(c[3])[r], 1, i), DT(c[3])) THEN UNSPEC
                          ELSE IF c[2] = "sum" THEN <<"flat", DT(c[3]), MapRows(Rows(c[3]), LAMBDA q : WideSum(q))>>
                          ELSE IF c[2] = "cumsum" THEN <<"ragged", DT(c[3]), MapRows(Rows(c[3]), LAMBDA q : [i \in DOMAIN q |-> WideSum(SubSeq(q, 1, i))])>>
                          ELSE IF c[2] = "total" THEN <<"scalar", DT(c[3]), WideSum(FlatOf(c[3]))>>
